@@ -10,6 +10,14 @@ STRUCTS_TTM = [{'N': [3], 'M': [2], 'R': [1, 1]}, {'N': [2, 3], 'M': [3, 1], 'R'
 
 
 def cases(tier, seed):
+    from .C03 import add_via
+    cs = _cases(tier, seed)
+    head = [c for c in cs if c['scen'] == 'op_preserve' and 'opts' not in c]
+    rest = [c for c in cs if not (c['scen'] == 'op_preserve' and 'opts' not in c)]
+    return add_via(head, 5 if tier == 'quick' else 3, ()) + rest
+
+
+def _cases(tier, seed):
     th = tier == 'thorough'
     cs = []
     tts = STRUCTS_TT + ([{'N': [2, 3, 2, 2], 'R': [1, 2, 3, 2, 1], 'R2': [1, 1, 2, 1, 1]}] if th else [])
